@@ -32,6 +32,7 @@ import GM.Proof.ExtWriter
 import GM.Model.InlinesLoopX
 import GM.Proof.InlinesLoopX
 import GM.Props.Convert
+import GM.Props.Consts.Ext
 
 namespace GM.Props.C11
 open GM GM.InlineLoop GM.Proof.InlineLoop
@@ -410,5 +411,10 @@ theorem unrecognised_paragraph_state_untouched : type_of% @GM.Props.Convert.unre
   @GM.Props.Convert.unrecognised_paragraph_state_untouched
 theorem paragraph_not_started_by_bracket_untouched : type_of% @GM.Props.Convert.paragraph_not_started_by_bracket_untouched :=
   @GM.Props.Convert.paragraph_not_started_by_bracket_untouched
+
+/-- (package consts) the task-list expression, linkify guards, footnote and definition-list openers are the decline models' -/
+theorem consts_extension_regexps_tied : GM.Spec.Consts.allOk GM.Spec.Consts.extensionRegexps = true := GM.Props.Consts.Ext.extension_regexps_tied
+/-- (package consts) goldmark compiles exactly the 18 known regular expressions, all understood by the extractor -/
+theorem consts_regexp_inventory_complete : GM.Spec.Consts.allOk GM.Spec.Consts.regexpInventory = true := GM.Props.Consts.Ext.regexp_inventory_complete
 
 end GM.Props.C11
